@@ -6,6 +6,30 @@ FIX_COMMITS = subprocess.run(["git","-C","/repo","log","--format=%h %s","5dec6d4
 
 # id -> (technique, level text, level note, design ref)
 CHECKS = {
+ "C08": ("value-flow of the resume offset to a skip on the copied reader, edge-cut reachability for the preview gate, emission order by dominance, arithmetic shape of the size fields, plus C01's layout/prefix rules (go/ssa)",
+         "Structural part only: the client's resume offset reaches a Seek/Discard on the very reader that is copied, dominating the copy; the flattened-file header is unreachable for a preview and data is sent in both cases; header, data fork, resource-fork header and resource fork are emitted in that order; the reply takes its offset from the request, field 207 is the data-fork header's size = file size - offset, field 108 is TransferSize(0) or the data size under the preview option, TransferSize = data + resource + emitted header length - offset; the header's own size fields follow from the extracted layout.",
+         "Not decided: that the bytes on the wire equal the bytes of the file on disk, size arithmetic at run time for every file size (e.g. 32-bit truncation above 4 GiB), resource-fork presence logic, the trailing zero-length MACR header.",
+         "4/C08"),
+ "C09": ("edge-cut reachability of the publish rename behind receiveFile's success edge, constant folding of open flags, symbolic path comparison, value-flow of declared size and resume offset (go/ssa)",
+         "Structural part only: every rename '<x>.incomplete -> <x>' is unreachable once the receiveFile-returned-nil edges are removed and is never deferred; the partial file is opened on the .incomplete name with O_APPEND|O_CREATE|O_WRONLY and never O_TRUNC; opening/receiving in UploadHandler and granting in HandleUploadFile are unreachable when Stat of the final name succeeded; receiveFile copies exactly the data-fork size declared in the header it read from the same stream; the resume offset reported is the size of the .incomplete file.",
+         "Not decided: behaviour under real connection cuts (what the kernel has flushed), byte equality, 'what was uploaded is what a later download returns', no-overwrite inside the folder-upload loop (value-dependent).",
+         "4/C09"),
+ "C10": ("the C08/C09 rules applied to the folder handlers plus sibling agreement between the item counter and the sending walker (go/ssa)",
+         "Structural part only: in the folder download the per-item resume offset is skipped on the file that is copied; in the folder upload both receive branches publish only after receiveFile succeeded, partial files are append-only and the reported resume offset is the partial file's size; CalcItemCount and the walker use the same name-prefix skip predicate, the counter counts only non-skipped entries minus the root, the walker sends no header for skipped entries nor the root, neither prunes sub-trees.",
+         "Not decided: that a tree is reproduced, depth-first order, per-item sizes, the per-item action protocol beyond the three structural rules.",
+         "4/C10"),
+ "C12": ("recipient-source classification of every constructed transaction against an audience table, all-paths value-flow of the truncation, ordering by dominance (go/ssa)",
+         "Structural part only: for the seven chat-family transactions the set of (transaction type, recipient source) pairs equals the protocol's audience table (members of the chat named by the request, the registry filtered by the element's own read-chat privilege, the request's user ID), each built inside the loop over its list; every chat text reaches NewField through [:min(len, LimitChatMsg)] on all value paths and LimitChatMsg = 8192; emote only under options {0,1}; Leave(chat, own ID) precedes the member enumeration, join notices use the enumeration taken before Join, declining never joins; the chat manager's Members/Leave/Join touch exactly the addressed chat and client.",
+         "Not decided: exactly-once delivery under schedules (delivery goes through the outbox), membership evolution over histories, message formatting beyond the emote selection.",
+         "4/C12"),
+ "C13": ("edge-cut reachability on the ID allocator, must-pass-through of a user-change notice after every roster-visible store, field provenance of notices (go/ssa)",
+         "Structural part only: a registry insertion is unreachable on the edge where the ID is already present or zero and the ID is not rewritten between test and insertion; the private message is delivered only on the not-refusing edge, the refusal notice only on the refusing edge, the auto reply only for a non-empty text, the target is ClientMgr.Get(request user ID); outside the login sequence every store to UserName/Icon and every Flags.Set is followed on all paths by a user-change notice; each notice carries ID, name, icon and flags of one and the same connection; user list entries are built from one registry element.",
+         "Not decided: convergence as a property of histories, ordering of notifications through the outbox, the login sequence's own notification rules (1.2.3 vs 1.5+ clients).",
+         "4/C13"),
+ "C15": ("flow-sensitive key-expression comparison between disk and map operations of each account mutator, success-edge dominance, who-may-write on Account.Password, edge-cut reachability for the password-field semantics (go/ssa)",
+         "Structural part only: create - file key = inserted key; delete - removed file = deleted key; rename - the deleted key is the login the account had before (the Rename's source), the inserted key and the stored account's login are the new login; map mutations only on the success edge of the preceding disk operation; every stored password is HashAndSalt(...) = string(bcrypt.GenerateFromPassword(arg)); the supplied password's hash is not stored under the 'unchanged' marker and the empty password's hash only when the field is absent; Get/List/loader shapes and yaml tags.",
+         "Not decided: set equality of logins / list / disk after arbitrary histories, YAML library behaviour for odd strings, restart equality beyond 'keyed by the Login read'.",
+         "4/C15"),
  "C01": ("cursor-protocol shape check of all 14 Read encoders + symbolic wire-layout extraction compared with a protocol layout table + prefix arithmetic + decoder/encoder offset agreement (go/ssa)",
          "Structural necessary conditions decided per encoder: R1-R5 of the cursor protocol (one copy(p, buf[cursor:]), cursor += n, EOF guard, (n, nil) returns, buffer independent of the cursor) give, by induction on the cursor, the same bytes and termination for EVERY sequence of read-buffer sizes >= 1; the extracted segment list of each encoder (widths, order, constants, which slot measures which field) equals spec/layouts.json written from the protocol document; size helpers are arithmetic consequences of those layouts; stored length prefixes are only written from the length of the data stored next to them; decoder byte ranges equal encoder offsets.",
          "Trusted: spec/layouts.json as the Hotline format, slices.Concat/append semantics. Not decided: decode(encode(x)) = x as values, over-long strings outside the prefixes' range, encoders without a Read method other than those listed (EncodeFilePath, NewTime, BinaryMarshal are not layout-checked).",
